@@ -45,10 +45,16 @@ type vWorld struct {
 	faultAt       int
 	site          string // where the fault fired
 	sites         []string
+	countStatus   bool           // GetDeployStatus answers with recorded + in-progress counts (C13)
+	onStep        func()         // observer called at every intercepted call (C13)
+	planned       map[string]int // node -> instances the deployment asked the resource manager for
 }
 
 // fault reports whether the current fallible call is the one that fails.
 func (w *vWorld) fault(site string) bool {
+	if w.onStep != nil && !w.frozen {
+		w.onStep()
+	}
 	if w.frozen {
 		return true // the process is dead: nothing reaches the outside world any more
 	}
@@ -139,6 +145,9 @@ func (m *vRmgr) Alloc(_ context.Context, node string, count int, opts resourcety
 		return nil, nil, vErrInjected
 	}
 	m.w.allocsOK++
+	if m.w.planned != nil {
+		m.w.planned[node] += count
+	}
 	var rs, es []resourcetypes.Resources
 	for i := 0; i < count; i++ {
 		rs = append(rs, vRes(vAmount(opts)))
@@ -221,12 +230,19 @@ func (s *vStore) RemoveWorkload(_ context.Context, wl *types.Workload) error {
 	return nil
 }
 
-func (s *vStore) AddWorkload(_ context.Context, wl *types.Workload, _ *types.Processing) error {
+// AddWorkload records the workload and, in the same transaction, takes one
+// instance off the deployment's in-progress marker (BatchCreateAndDecr).
+func (s *vStore) AddWorkload(_ context.Context, wl *types.Workload, p *types.Processing) error {
 	if s.w != nil && s.w.fault("store.AddWorkload") {
 		return vErrInjected
 	}
 	cp := *wl
 	s.workloads[wl.ID] = &cp
+	if p != nil && s.w != nil && s.w.processing != nil {
+		if _, ok := s.w.processing[p.Nodename]; ok {
+			s.w.processing[p.Nodename]--
+		}
+	}
 	return nil
 }
 
